@@ -943,6 +943,11 @@ func (b *brokerDomain) step(f []string) string {
 		b.reset(1)
 	}
 	cl := func(name string) *bclient { return b.clients[name] }
+	if (f[0] == "connect" || f[0] == "connectas") && len(f) > 3 && f[3] == "~" {
+		// `~` stands for the empty client identifier
+		f = append([]string{}, f...)
+		f[3] = ""
+	}
 	switch {
 	case f[0] == "connect" && len(f) == 7:
 		// connect <c> <node> <clientid> <mount> <keepalive> <will|-> ; password ok unless mount starts with '!'
